@@ -92,6 +92,12 @@ func vpStrOr(v any, present bool, sentinel string) string {
 
 func vpH_c16_scalars() {
 	b := &vpSrcBuilder{m: NewMap[string, any](0)}
+	// the source may carry a deleted entry that was not compacted away
+	tomb := vpBool()
+	if tomb {
+		b.m.Set("a", "stale") // deleted below: must leave no trace, whatever the field names say
+		b.m.Set("tombstone", "stale")
+	}
 	nfree := vpParam("free")
 	// free keys first or last, so that their position relative to named keys varies
 	freeFirst := vpBool()
@@ -110,6 +116,12 @@ func vpH_c16_scalars() {
 	}
 	if !freeFirst {
 		addFree()
+	}
+	if tomb {
+		b.m.Delete("tombstone")
+		if _, has := b.get("a"); !has {
+			b.m.Delete("a")
+		}
 	}
 
 	dst := vpT1{A: "SA", B: "SB", C: "SC", Skip: "SS", Untagged: "SU", hidden: "SH"}
